@@ -119,6 +119,10 @@ def bounded_unitary(which):
                 check('wf-focus-energy-%d' % prec, bool(np.isclose(E(F.data), E(f), rtol=1e-4 if prec == 32 else 1e-9)))
                 back = F.unfocus(100.0, Q=1)
                 check('wf-roundtrip-%d' % prec, bool(np.allclose(back.data, f, atol=1e-4 if prec == 32 else 1e-9)))
+                # a distance of exactly zero (integer or float) is a distance: the field comes back unchanged
+                for zero in (0, 0.0):
+                    fz = W.free_space(zero, Q=1)
+                    check('wf-free-space-zero-distance-is-identity-%d' % prec, bool(np.allclose(fz.data, W.data, atol=1e-4 if prec == 32 else 1e-12)))
                 fs = W.free_space(10.0, Q=1)
                 check('wf-free-space-energy-%d' % prec, bool(np.isclose(E(fs.data), E(f), rtol=1e-4 if prec == 32 else 1e-9)))
                 # the methods at a padding factor other than their default
